@@ -21,7 +21,7 @@ func init() { register(c16{}) }
 func (c16) ID() string    { return "C16" }
 func (c16) Level() string { return "exploration" }
 func (c16) Rule() string {
-	return "ALL 256 first bytes x bodies produced by the reference encoder that are valid for the type in the upper nibble and consistent with the flag bits (PUBLISH: packet identifier present iff the QoS bits are 01 or 10; for QoS bits 11 bodies with and without identifier), including remaining length 0 where the type allows it; 8 (quick) / 200 (thorough) bodies per first byte. Oracle: an independent nibble->Go type table; Publish accessors against bit arithmetic on the first byte; for types 1..15 the first byte written by WriteTo equals the one read; type 0 yields *Undefined whose Data() is the body. Acceptance is demanded where the flag nibble is legal for the type; for other nibbles a returned packet must still have the right type and keep the flags. distinct = (first byte, body class); non-trivial = all"
+	return "ALL 256 first bytes x bodies produced by the reference encoder that are valid for the type in the upper nibble and consistent with the flag bits (PUBLISH: packet identifier present iff the QoS bits are 01 or 10; for QoS bits 11 bodies with and without identifier), including remaining length 0 where the type allows it; 8 (quick) / 20000 (thorough) bodies per first byte. Oracle: an independent nibble->Go type table; Publish accessors against bit arithmetic on the first byte; for types 1..15 the first byte written by WriteTo equals the one read; type 0 yields *Undefined whose Data() is the body. Acceptance is demanded where the flag nibble is legal for the type; for other nibbles a returned packet must still have the right type and keep the flags. distinct = (first byte, body class); non-trivial = all"
 }
 func (c16) Assumptions() []string {
 	return []string{"a decoder may reject flag nibbles MQTT reserves; if it accepts them it must preserve them"}
@@ -38,7 +38,7 @@ func (c16) Run(c *run.Ctx, phase, idx int) {
 	T := tname(t)
 	n := 8
 	if c.Thorough {
-		n = 200
+		n = 20000
 	}
 	legal := fl == ref.ReservedFlags(t)
 	if t == ref.TPublish {
